@@ -335,6 +335,48 @@ def value_case(ctx, case):
             return
 
 
+def compound_case(ctx, case):
+    """case = (compound operator, ops of the right-hand side chain, right-hand side parenthesised?):
+    `x cop= b op1 c [op2 d]` means x = x cop (b op1 c [op2 d]) - the right-hand side extends over the whole
+    following expression and is grouped by the declared precedence"""
+    cop, ops, paren = case
+    names = ["b", "c", "d"][:len(ops) + 1]
+    flat = []
+    for k, nm in enumerate(names):
+        flat.append(nm)
+        if k < len(ops):
+            flat.append(ops[k])
+    rhs = exprparse.parse_tokens(flat)
+    expected = (cop, "a", rhs)
+    others = [t for t in all_trees(["a"] + names, [cop] + list(ops)) if t != expected]
+    inputs, _ = separating_inputs(expected, others, ["a"] + names)
+    ctx.count()
+    if not inputs:
+        ctx.discard("no-separating-input (all groupings agree)")
+        return
+    etoks = (["("] + flat + [")"]) if paren else flat
+    toks = HEAD + ["int", "x", "=", "a", ";", "x", cop + "="] + etoks + [";", "return", "x", ";", "}"]
+    src = layouts(toks, 0)
+    c = adapter.compile_src(src)
+    if not c.ok:
+        ctx.fail("value|rejected|" + c.why()[:80], "well-formed compound assignment rejected: %r: %s" % (src, c.why()), case)
+        return
+    program = adapter.link([c.ir])
+    ctx.nontrivial(src)
+    ctx.label("value-ctx:compound" + ("-parenthesised" if paren else ""))
+    for env, ev in inputs:
+        args = {k: env.get(k, 0) for k in ("a", "b", "c", "d")}
+        ran = adapter.invoke(adapter.new_vm(program), "f", args, budget=100000)
+        if not ran.ok:
+            ctx.fail("value|vm-exception|" + (adapter.exc_sig(ran.exc) if ran.exc else "diverged"),
+                     "%r with %r: VM failed %r" % (src, args, ran.exc), case)
+            return
+        if ran.value != ev:
+            ctx.fail("value|wrong-value|ctx=compound",
+                     "%r with %r: VM returned %r, x %s (%s) gives %r" % (src, args, ran.value, cop, exprparse.show(rhs), ev), case)
+            return
+
+
 # -- generated long chains ------------------------------------------------------------
 
 _OPERAND = st.sampled_from([
@@ -419,6 +461,9 @@ def run(R):
     else:
         R.enum("triples-value", lambda: [(ops, c) for ops in itertools.product(OPS, repeat=3)
                                          for c in ("ret", "assign", "cond")], value_case)
+    R.enum("compound-value", lambda: [(cop, ops, par) for cop in "+-*/" for n in (1, 2)
+                                      for ops in itertools.product(OPS, repeat=n) for par in (False, True)], compound_case)
+    R.require("value-ctx:compound")
     R.hyp("long-chains", long_chain(), long_case, examples=R.pick(250, 4000))
     for c in CONTEXTS:
         R.require("ctx:" + c)
